@@ -161,7 +161,7 @@ def run(prog, chk):
                 ok = bool(C or N) or f.key in ec or dead
                 chk.ob('R13.3', f, n.ln, ok, 'advance() returns previous(): the cursor must be past the first token or known not at Eof', key='advance:%s' % f.short,
                        nontrivial=not (C or N))
-    chk.count('previous() call sites', nprev, 15)
+    chk.count('previous() call sites', nprev, 5)
     # subscripts of the token vector / source text
     for A, container in ((P, 'm_tokens'), (L, 'm_source')):
         for f in A.fns:
